@@ -25,11 +25,14 @@ import hv
 from hv import Case
 
 SPEC = {
-    "lean_modules": ["Honeycomb.Props.C02"],
+    "lean_modules": ["Honeycomb.Props.C02", "Honeycomb.Props.C02b"],
     "required_theorems": ["C02_step_preserves_WF", "C02_history_preserves_WF", "C02_step_preserves_Mirror",
                           "C02_history_preserves_WF_and_Mirror", "C02_refusal", "C02_refusal_sew",
                           "C02_three_link_checks_shape", "C02_refused_call_changes_nothing",
-                          "C02_unused_is_nobodys_image", "C02_failed_call_changes_nothing"],
+                          "C02_unused_is_nobodys_image", "C02_failed_call_changes_nothing",
+                          "C02b_step_preserves_Sided", "C02b_history_preserves_Sided", "C02b_sided_counterexample",
+                          "C02b_noSelfGlue_counterexample", "C02b_step_preserves_NoSelfGlue_partial",
+                          "C02b_step_preserves_NoSelfGlue", "C02b_history_preserves_all", "nsg_of_noAdj"],
     "trusted_base": [
         "Lean 4.33 kernel; axioms propext, Classical.choice, Quot.sound only",
         "hand-written model Honeycomb/Model/{Stm,Map,Ops,Ops2,Ops3}.lean tied to /repo by the hcmodel/hcimpl correspondence run",
@@ -58,6 +61,17 @@ SPEC = {
         "C08 (D4 — three_sew/three_unsew used the non-transactional orbit() — is repaired in /repo; it never affected the beta part "
         "proved here: the face walks only feed the attribute updates)",
         "model/implementation agreement is established by the differential run of this check, not by proof",
+        "Props/C02b.lean (the two extra predicates of the 3-D rendering theorems C20b): `Sided3` (faces 3-linked as a whole) is NOT an "
+        "invariant under C02's guards alone — a 1-link/1-sew of a 3-linked dart with a 3-free one breaks it (C02b_sided_counterexample: "
+        "new 3 3 0; link 3 1 2; link 1 1 3), and one more breaks `NoSelfGlue3` (C02b_noSelfGlue_counterexample); with the extra guard "
+        "G13 (both darts 3-linked or neither) on 1-links/1-sews WF ∧ Mirror ∧ Sided3 is preserved by every call and history (proved: "
+        "C02b_step_preserves_Sided, C02b_history_preserves_Sided; three_link links and three_unlink unlinks whole faces, closed or open). "
+        "NoSelfGlue is proved preserved from WF ∧ Mirror ∧ Sided3 ∧ NoSelfGlue maps by every call under C02's guards + G13 "
+        "(C02b_step_preserves_NoSelfGlue, C02b_history_preserves_all; key lemma nsg_of_noAdj: on a WF mirrored sided map a self-glued "
+        "face shows as a dart 3-linked to its own successor). NOT proved: NoSelfGlue through 1-links/1-sews WITHOUT G13 (the result is "
+        "then not sided; exhaustive search tools/sided_scan.py — every WF 3-map with <= 4 darts x every guarded call, 24500 random "
+        "histories — found no violation from maps satisfying all four predicates); C02b_step_preserves_NoSelfGlue_partial covers every "
+        "other call without G13",
     ],
 }
 
